@@ -4,12 +4,15 @@
 //!   clh exec                                            (op lines on stdin -> result lines)
 mod bn;
 mod c19;
+mod c20;
 mod exec;
 mod fixtures;
+mod issuance;
 mod pres;
 mod reg;
 mod tamper;
 mod rng;
+mod ser;
 mod util;
 
 use rng::Rng;
@@ -33,7 +36,7 @@ fn backend() -> &'static str {
 fn gen(stream: &str, tier: &str, seed: u64) -> Result<(), String> {
     let mut rng = Rng::new(seed);
     let thorough = tier == "thorough";
-    let gens: Vec<fn(&str, bool, &mut Rng) -> Option<Result<(), String>>> = vec![reg::gen, pres::gen, bn::gen, c19::gen];
+    let gens: Vec<fn(&str, bool, &mut Rng) -> Option<Result<(), String>>> = vec![reg::gen, pres::gen, issuance::gen, bn::gen, c19::gen, c20::gen, ser::gen];
     for g in gens {
         if let Some(r) = g(stream, thorough, &mut rng) {
             return r;
@@ -48,6 +51,7 @@ fn main() {
     let cmd = args.get(1).map(|s| s.as_str()).unwrap_or("");
     let r = match cmd {
         "mkfixtures" => fixtures::make_fixtures(args.iter().any(|a| a == "--force")),
+        "mkgolden" => ser::make_golden(args.iter().any(|a| a == "--force")),
         "gen" => {
             let stream = args.get(2).cloned().unwrap_or_default();
             let tier = arg_val(&args, "--tier").unwrap_or_else(|| "quick".into());
